@@ -333,6 +333,91 @@ impl BlkCase {
     }
 }
 
+impl BlkCase {
+    /// `blk pwaker`: a ring of its own with a two-entry submission queue. Two reads fill the queue,
+    /// three more find it full and wait for a slot — the first of them with a waker that panics.
+    /// `Ring::poll` submits the queue and wakes the waiters: the panic unwinds out of the wake pass.
+    /// The application catches it and polls again: the two other waiters must be woken then (two
+    /// slots are free; they were taken out of the list by the pass that panicked).
+    fn do_pwaker(&mut self) -> Vec<String> {
+        if self.rw.is_some() {
+            return vec!["bad-op".into()];
+        }
+        let pre = simk::drain_events();
+        simk::purge_closed_except(self.rfd);
+        let held_main = simk::hold_fd(self.rfd);
+        let before: Vec<i32> = simk::with_sim(|s| s.rings.keys().copied().collect());
+        let built = Ring::config().with_submission_queue_size(2).build();
+        if held_main {
+            simk::release_fd(self.rfd);
+        }
+        let mut ring_b = match built {
+            Ok(r) => r,
+            Err(e) => return vec![format!("pwaker setup-failed {e}")],
+        };
+        let Some(rfd_b) = simk::with_sim(|s| s.rings.keys().copied().find(|k| !before.contains(k))) else {
+            return vec!["pwaker no-new-ring".into()];
+        };
+        let sq_b = ring_b.sq();
+        let raw = simk::with_ring(rfd_b, |r, _| r.fresh_fd());
+        let fd: &'static AsyncFd = Box::leak(Box::new(unsafe { AsyncFd::from_raw_fd(raw, sq_b.clone()) }));
+        drop(sq_b);
+        util::drain_wakes();
+        let noop = std::task::Waker::noop();
+        type F = Pin<Box<dyn Future<Output = std::io::Result<Vec<u8>>>>>;
+        let mut futs: Vec<F> = Vec::new();
+        for _ in 0..2 {
+            let mut f: F = Box::pin(fd.read(Vec::with_capacity(8)));
+            let _ = f.as_mut().poll(&mut Context::from_waker(noop));
+            futs.push(f);
+        }
+        let wakers = [util::panicking_waker(), util::waker(701), util::waker(702)];
+        for w in &wakers {
+            let mut f: F = Box::pin(fd.read(Vec::with_capacity(8)));
+            let _ = f.as_mut().poll(&mut Context::from_waker(w));
+            futs.push(f);
+        }
+        let show = |v: Vec<u32>| -> String {
+            let v: Vec<String> = v.into_iter().filter(|w| *w == 701 || *w == 702).map(|w| w.to_string()).collect();
+            if v.is_empty() { "-".into() } else { v.join(",") }
+        };
+        let first = match util::catch(|| ring_b.poll(Some(Duration::ZERO))) {
+            Err(_) => "panic",
+            Ok(Ok(())) => "ok",
+            Ok(Err(_)) => "err",
+        };
+        let w1 = show(util::drain_wakes());
+        let second = match util::catch(|| ring_b.poll(Some(Duration::ZERO))) {
+            Err(_) => "panic",
+            Ok(Ok(())) => "ok",
+            Ok(Err(_)) => "err",
+        };
+        let w2 = show(util::drain_wakes());
+        let all = format!("{w1},{w2}");
+        if !(all.contains("701") && all.contains("702")) {
+            self.oracle.push(("C03".into(), "C03/blocked-lost-after-waker-panic".into(), format!("three futures waited for a submission slot, the waker of the first panicked inside the wake pass of Ring::poll (that poll: {first}, woke {w1}); a second Ring::poll (ended {second}) woke {w2}: a waiter whose own waker is fine was never woken although two slots are free")));
+        }
+        self.feats.push("waker-panics-in-wake-pass".into());
+        for f in futs {
+            let _ = util::catch(move || drop(f));
+        }
+        let _ = util::catch(move || drop(ring_b));
+        unsafe { drop(Box::from_raw(std::ptr::from_ref(fd).cast_mut())) };
+        if unsafe { simk::raw_syscall(libc::SYS_fcntl, raw as i64, libc::F_GETFD as i64, 0, 0, 0, 0) } >= 0 {
+            unsafe { simk::raw_syscall(libc::SYS_close, raw as i64, 0, 0, 0, 0, 0) };
+        }
+        let _ = simk::drain_events();
+        simk::with_sim(|sim| {
+            let mut keep = pre;
+            keep.append(&mut sim.events);
+            sim.events = keep;
+        });
+        simk::purge_closed_except(self.rfd);
+        util::drain_wakes();
+        vec![format!("pwaker first={first} woken={w1} second={second} woken={w2}")]
+    }
+}
+
 impl Case for BlkCase {
     fn begin_output(&mut self) -> Vec<String> {
         if !self.ok {
@@ -371,6 +456,7 @@ impl Case for BlkCase {
         let w_bad = if rng.chance(1, 40) { 1 } else { 0 };
         match rng.weighted(&[w_f, w_poll, w_r, w_re, w_spur, w_bad]) {
             0 => Some(format!("blk f {}", rng.pick(&mid))),
+            1 if self.rw.is_none() && rng.chance(1, 40) => Some("blk pwaker".to_string()),
             1 => Some(if rng.chance(1, 3) { "blk pollinf".to_string() } else if rng.chance(1, 4) { "blk polli".to_string() } else { "blk poll".to_string() }),
             2 => Some("blk r".into()),
             3 => Some(format!("blk repoll {}", rng.pick(&woken_blocked))),
@@ -431,6 +517,7 @@ impl Case for BlkCase {
                 self.rw = Some(RingWorker { inf, registered_at_start, tid, phase: 0, loads: 0, label: "start".into() });
                 format!("r start {}", self.state())
             }
+            ["blk", "pwaker"] => return self.do_pwaker(),
             ["blk", "io"] => {
                 // some completion arrives (nobody's: user_data 0): a waiting io_uring_enter returns
                 if !self.rw.as_ref().is_some_and(|r| r.label == "waiting") {
